@@ -121,6 +121,12 @@ class Ctx(Partial):
                     matched = k
                     break
             if matched is not None:
+                if matched["id"] not in seen_known:
+                    # one replayable execution per recorded finding (committed: replays/known/)
+                    kd = os.path.join(REPLAY_DIR, "known")
+                    os.makedirs(kd, exist_ok=True)
+                    with open(os.path.join(kd, f"{matched['id']}.json"), "w") as f:
+                        json.dump({"property": self.prop, "finding": matched["id"], **v}, f, indent=1, sort_keys=True, default=repr)
                 seen_known[matched["id"]] = seen_known.get(matched["id"], 0) + 1
                 continue
             d = digest(sig)
@@ -132,7 +138,7 @@ class Ctx(Partial):
             if k["id"] in seen_known:
                 print(
                     f"KNOWN-FINDING: property={self.prop} {k['what']} "
-                    f"[{k['id']}; seen in {seen_known[k['id']]} executions]"
+                    f"[{k['id']}; seen in {seen_known[k['id']]} executions; replay={os.path.join(REPLAY_DIR, 'known', k['id'] + '.json')}]"
                 )
         os.makedirs(REPLAY_DIR, exist_ok=True)
         for v in new[:MAX_REPORT]:
